@@ -142,6 +142,12 @@ func c01Witnesses() []c01Witness {
 		{Name: "shared-type-name-additional-properties", Doc: wSharedTypeName(J{"type": "object", "properties": J{"owner": J{"type": "string"}}, "additionalProperties": J{"type": "string"}})},
 		{Name: "shared-type-name-union", Doc: wSharedTypeName(J{"oneOf": []interface{}{J{"type": "string"}, J{"type": "integer"}}})},
 		{Name: "shared-type-name-union-additional-properties", Doc: wSharedTypeName(J{"type": "object", "oneOf": []interface{}{J{"type": "object", "properties": J{"a": J{"type": "string"}}}, J{"type": "object", "properties": J{"b": J{"type": "integer"}}}}, "additionalProperties": J{"type": "string"}})},
+		// a component parameter whose schema needs a type next to its own (enum items of an array, an inline object with
+		// additional properties): that type is declared
+		{Name: "component-parameter-array-of-enums", FW: "chi", Client: true,
+			Doc: wDoc(J{"/a": J{"get": wOp("getA", J{"parameters": []interface{}{J{"$ref": "#/components/parameters/Levels"}, J{"$ref": "#/components/parameters/Filter"}}})}},
+				J{"parameters": J{"Levels": J{"name": "levels", "in": "query", "schema": J{"type": "array", "items": J{"type": "string", "enum": []interface{}{"low", "high"}}}},
+					"Filter": J{"name": "filter", "in": "query", "content": J{"application/json": J{"schema": J{"type": "object", "properties": J{"tags": J{"type": "array", "items": J{"type": "string", "enum": []interface{}{"a", "b"}}}}}}}}}})},
 		{Name: "leading-digit-schema-with-nested-map",
 			Doc: wDoc(J{}, J{"schemas": J{"1st": objWith(J{"count": J{"type": "object", "properties": J{"n": J{"type": "string"}}, "additionalProperties": J{"type": "integer"}}})}})},
 	}
